@@ -175,7 +175,22 @@ func TestWatchScenarios(t *testing.T) {
 	w := newNDWriter(t, out)
 	defer w.Close()
 	emit := func(sc watchScen, procs int) {
+		// a scenario takes microseconds of real time (its time is virtual); one that does not finish is a goroutine
+		// spinning without ever blocking (virtual time cannot advance, nothing can stop it): report and leave
+		fin := make(chan struct{})
+		go func() {
+			select {
+			case <-fin:
+			case <-time.After(3 * watchdogLimit()):
+				w.Write(Ev{"e": "reset", "scen": sc, "procs": procs})
+				w.Write(Ev{"e": "crash", "msg": "the scenario does not finish: NewConn (or a later call) spins without blocking - it neither returns nor lets time pass"})
+				w.Write(Ev{"e": "end"})
+				w.Close()
+				os.Exit(0)
+			}
+		}()
 		evs, crash := runWatchScenario(t, sc, hello)
+		close(fin)
 		w.Write(Ev{"e": "reset", "scen": sc, "procs": procs})
 		for _, e := range evs {
 			w.Write(e)
